@@ -687,3 +687,61 @@ def deconst(modules):
             return new
         rec(tree)
     return n_rw
+
+
+def deaccessor(trees):
+    """A property that only wraps one private attribute - getter `return self._x` (possibly after `if ..: raise ..`
+    guards that report a read before the value exists), setter `self._x = value`, optional deleter `del self._x` -
+    where `_x` is touched nowhere else in the package, behaves like the plain attribute of its name for every read
+    and write that succeeds: the accessor functions are dropped, `self.x` stays.  Returns the number of properties."""
+    n = 0
+    # attribute names and where they are used
+    uses = {}
+    for t in trees:
+        for x in ast.walk(t):
+            if isinstance(x, ast.Attribute):
+                uses.setdefault(x.attr, []).append(x)
+    for t in trees:
+        for cd in [c for c in ast.walk(t) if isinstance(c, ast.ClassDef)]:
+            groups = {}
+            for fn in cd.body:
+                if not isinstance(fn, ast.FunctionDef):
+                    continue
+                for d in fn.decorator_list:
+                    if isinstance(d, ast.Name) and d.id == 'property':
+                        groups.setdefault(fn.name, {})['get'] = fn
+                    elif isinstance(d, ast.Attribute) and isinstance(d.value, ast.Name) and d.value.id == fn.name \
+                            and d.attr in ('setter', 'deleter'):
+                        groups.setdefault(fn.name, {})['set' if d.attr == 'setter' else 'del'] = fn
+            for name, g in groups.items():
+                if 'get' not in g or 'set' not in g:
+                    continue
+
+                def body(fn):
+                    return [s for s in fn.body if not (isinstance(s, ast.Expr) and isinstance(s.value, ast.Constant))]
+                gb = body(g['get'])
+                if not gb or not isinstance(gb[-1], ast.Return) or not isinstance(gb[-1].value, ast.Attribute) or \
+                        not (isinstance(gb[-1].value.value, ast.Name) and gb[-1].value.value.id == 'self'):
+                    continue
+                under = gb[-1].value.attr
+                if not all(isinstance(s, ast.If) and not s.orelse and len(s.body) == 1 and isinstance(s.body[0], ast.Raise)
+                           for s in gb[:-1]):
+                    continue
+                sb = body(g['set'])
+                sp = [a.arg for a in g['set'].args.args]
+                if not (len(sb) == 1 and isinstance(sb[0], ast.Assign) and len(sb[0].targets) == 1 and len(sp) == 2 and
+                        isinstance(sb[0].targets[0], ast.Attribute) and sb[0].targets[0].attr == under and
+                        isinstance(sb[0].value, ast.Name) and sb[0].value.id == sp[1]):
+                    continue
+                inside = set()
+                for fn in g.values():
+                    for x in ast.walk(fn):
+                        inside.add(id(x))
+                if any(id(u) not in inside for u in uses.get(under, [])):
+                    continue
+                for fn in g.values():
+                    cd.body.remove(fn)
+                if not cd.body:
+                    cd.body.append(ast.Pass())
+                n += 1
+    return n
